@@ -256,6 +256,19 @@ func gconcCtlRun(env *runner.Env) (res *runner.Result) {
 		res.NonTrivial = len(w.order) > 2
 		res.Log = s.Log
 		stats["handler-invocations"] += int64(len(w.order))
+		for i := 1; i < len(w.order); i++ {
+			if w.order[i] != w.order[i-1] {
+				stats["probe.listener-lock-handed-to-a-different-worker"]++
+			}
+		}
+		for k, v := range s.Released {
+			stats["released."+k] += int64(v)
+		}
+		for _, f := range w.fetches {
+			if f.hi > f.lo {
+				stats["probe.status-query-overlapping-a-handler-in-flight"]++
+			}
+		}
 		stats["status-queries"] += int64(len(w.fetches))
 		s.Kill()
 	}
